@@ -83,7 +83,7 @@ def pick_variants(rng, n):
 LABELS = ["EA", "DevelPhaseExit", "InternalAlpha", "Alpha", "InternalSnapshot", "Beta", "Snapshot", "RC", "Update", "SecurityFix"]
 
 
-RESPINS = [0, 1, 2, 10, 123, 10 ** 7, 10 ** 8, 2 ** 31, 2 ** 63 - 1, -1, True]      # audit A6 (bool is an int for the validator)
+RESPINS = [0, 1, 2, 10, 123, 10 ** 7, 10 ** 8, 2 ** 31, 2 ** 63 - 1, -1]      # audit A6 (no bool: refused by the repaired _assert_type, F22/F43; C06 probes it)
 
 
 def gen_compose(rng):
